@@ -35,6 +35,7 @@ import (
 	"github.com/buchgr/bazel-remote/v2/cache/disk"
 	pb "github.com/buchgr/bazel-remote/v2/genproto/build/bazel/remote/execution/v2"
 	"github.com/klauspost/compress/zstd"
+	"github.com/valyala/gozstd"
 	"google.golang.org/protobuf/proto"
 )
 
@@ -171,9 +172,9 @@ func apiGet(c disk.Cache, kind string, hash string, size, offset int64, zstd boo
 		if zstd {
 			var d []byte
 			if useC {
-				d, err = lib.ZstdDecodeC(b)
+				d, err = decodeC(b, int(o.size-offset))
 			} else {
-				d, err = lib.ZstdDecodeKP(b)
+				d, err = decodeKP(b, int(o.size-offset))
 			}
 			if err != nil {
 				o.err = "returned stream is not legal zstd: " + err.Error()
@@ -184,6 +185,39 @@ func apiGet(c disk.Cache, kind string, hash string, size, offset int64, zstd boo
 		o.data = b
 	})
 	return o
+}
+
+// Decoders with a capacity hint (the two standard decoders of lib/blob.go;
+// growing the output buffer geometrically dominated the run time).
+var kpDec, _ = zstd.NewReader(nil)
+
+func decodeKP(b []byte, hint int) ([]byte, error) {
+	return kpDec.DecodeAll(b, make([]byte, 0, hint+1024))
+}
+
+func decodeC(b []byte, hint int) ([]byte, error) {
+	zr := gozstd.NewReader(bytes.NewReader(b))
+	defer zr.Release()
+	out := bytes.NewBuffer(make([]byte, 0, hint+4096))
+	_, err := out.ReadFrom(zr)
+	return out.Bytes(), err
+}
+
+// decodeBoth decodes a complete zstd stream with both standard decoders and
+// requires agreement.
+func decodeBoth(b []byte, hint int) ([]byte, error) {
+	a, err := decodeKP(b, hint)
+	if err != nil {
+		return nil, fmt.Errorf("klauspost: %w", err)
+	}
+	c, err := decodeC(b, hint)
+	if err != nil {
+		return nil, fmt.Errorf("libzstd: %w", err)
+	}
+	if !bytes.Equal(a, c) {
+		return nil, fmt.Errorf("decoders disagree: klauspost %d bytes, libzstd %d bytes", len(a), len(c))
+	}
+	return a, nil
 }
 
 // firstDiff describes where two byte strings start to differ.
